@@ -16,8 +16,12 @@ UTC = datetime.timezone.utc
 T0 = datetime.datetime(2000, 1, 1, tzinfo=UTC)
 
 
-def T(s: float) -> datetime.datetime:
-    return T0 + datetime.timedelta(seconds=s)
+def T(s: float, tz_minutes: int = 0) -> datetime.datetime:
+    t = T0 + datetime.timedelta(seconds=s)
+    if tz_minutes:
+        # the same instant expressed in another UTC offset (aware datetimes of any zone are legal inputs)
+        t = t.astimezone(datetime.timezone(datetime.timedelta(minutes=tz_minutes)))
+    return t
 
 
 def S(dt: datetime.datetime) -> float:
@@ -77,7 +81,8 @@ class BtRun:
             evs = []
             for t in src["events"]:
                 eid += 1
-                evs.append(Ev(T(t), eid))
+                tzs = sc.get("tz_minutes", [0])
+                evs.append(Ev(T(t, tzs[eid % len(tzs)]), eid))
                 self.events[eid] = (si, t)
             if src.get("producer"):
                 self.sources.append(event.FifoQueueEventSource(producer=event.Producer(), events=evs))
@@ -118,7 +123,8 @@ class BtRun:
         when = j["t"] if "t" in j else (base_now or 0.0) + j["dt"]
         self.jobs[jid] = {"when": when, "sched_seq": self.trace.seq, "sched_now": base_now, "by": by,
                           "spec": j}
-        self.d.schedule(T(when), self._mk_job(jid, j, when))
+        tzs = self.sc.get("tz_minutes", [0])
+        self.d.schedule(T(when, tzs[jid % len(tzs)]), self._mk_job(jid, j, when))
         return jid
 
     def _mk_job(self, jid: int, spec: Dict[str, Any], when: float):
